@@ -523,10 +523,17 @@ fn builder_probe(t: &[&str]) -> String {
             let cl = it.clone();
             let eq = cl == it;
             let ser = bincode::serialize(&it).unwrap();
-            let back: DataItem = bincode::deserialize(&ser).unwrap();
-            let rt = back == it
-                && back.open().to_bits() == it.open().to_bits()
-                && back.volume().to_bits() == it.volume().to_bits();
+            let rt = match quiet(|| bincode::deserialize::<DataItem>(&ser)) {
+                Ok(Ok(back)) => {
+                    back == it
+                        && back.open().to_bits() == it.open().to_bits()
+                        && back.high().to_bits() == it.high().to_bits()
+                        && back.low().to_bits() == it.low().to_bits()
+                        && back.close().to_bits() == it.close().to_bits()
+                        && back.volume().to_bits() == it.volume().to_bits()
+                }
+                _ => false,
+            };
             format!(
                 "ok {:016x} {:016x} {:016x} {:016x} {:016x} clone_eq={} serde_eq={} ser={}",
                 canon(it.open()),
